@@ -282,3 +282,12 @@ def run(ctx):
     r6_complete_messages(ctx)
     C06.r3_notify(ctx, 'C07.R7')
     C06.r5_ping_atomics(ctx, 'C07.R8')
+
+
+_run_rules = run
+
+
+def run(ctx):
+    _run_rules(ctx)
+    from .. import boundaries
+    boundaries.check(ctx, 'C07.RB', 'C07')
